@@ -54,7 +54,8 @@ C12(pre, e, post, acc, line) ==
   /\ (e.ev \in DelegatedOps /\ Ok(e) /\ Has(pre.banks, TargetBank(e))) =>
        LET tb == TargetBank(e) b == pre.banks[tb] q == post.banks[tb] rm == Remit(e.ev) IN
        /\ Chk("C12", "only_fields_in_remit_change", line,
-              ChangedTop(b, q) \subseteq rm[1] /\ ChangedCfg(b, q) \subseteq rm[2],
+              \* (the derived rate/price cache and the update stamp are not configuration and are not constrained here)
+              (ChangedTop(b, q) \ {"cache", "last_update"}) \subseteq rm[1] /\ ChangedCfg(b, q) \subseteq rm[2],
               [ev |-> e.ev, bank |-> tb, changed |-> ChangedTop(b, q), changed_cfg |-> ChangedCfg(b, q)])
        /\ Chk("C12", "no_other_flag_touched", line, FlagDiff(b, q) \subseteq rm[3],
               [ev |-> e.ev, bank |-> tb, flag_bits_changed |-> FlagDiff(b, q), pre_flags |-> b.flags, post_flags |-> q.flags])
@@ -112,7 +113,7 @@ C19(pre, e, post, line) ==
                  RSub(fi, R(q.fee_ins)) = ti /\ RSub(fg, R(q.fee_grp)) = tg /\ RSub(fp, R(q.fee_prog)) = tp, [bank |-> bn])
           /\ Chk("C19", "nothing_else_moves", line,
                  moved \subseteq {b.vault_liq, b.vault_ins, b.vault_fee, ata}
-                 /\ ChangedTop(b, q) \subseteq {"fee_ins", "fee_grp", "fee_prog"} /\ post.accts = pre.accts,
+                 /\ ChangedTop(b, q) \subseteq {"fee_ins", "fee_grp", "fee_prog", "cache", "last_update"} /\ post.accts = pre.accts,
                  [bank |-> bn, moved |-> moved, changed |-> ChangedTop(b, q)])
   \* fee and insurance vaults are drawn down only by the group admin, by anyone into the fixed destination, or by bankruptcy cover
   /\ (IsProgramEvent(e) /\ Ok(e) /\ e.ev # "tx") =>
